@@ -32,7 +32,10 @@ def check(run):
     nb = E.nBallots
     ncand = len([c for c in E.C if c.state != 'withdrawn'])
     q0 = cfg.frac(run.snaps[0].quota)
-    allowance = 2 * cfg.ulp * nb * ncand
+    # 'units in the last place of the arithmetic': for guarded arithmetic that is the declared precision (values closer than half
+    # such a unit compare equal), not the guard digits behind it
+    unit = Fraction(1, 10 ** cfg.precision) if cfg.kind == 'guarded' else cfg.ulp
+    allowance = 2 * unit * nb * ncand
     support = {}
     firsts = {}
     for m_raw, r in zip(run.mults, run.rankings):
